@@ -163,6 +163,13 @@ func init() {
 			}
 		}
 		trimmed := tStrSubstr(s, tStrLen(p), tIntSub(tStrLen(s), tStrLen(p)))
+		if _, ok := fixedAtoms(s); ok && !has.IsConst() {
+			// fixed-length character sequence: decide now, keep the result structured
+			if ex.branch(has, site) {
+				return trimmed
+			}
+			return s
+		}
 		return tIte(has, trimmed, s)
 	})
 	reg("strings.TrimSuffix", func(ex *Exec, fr *Frame, site ssa.Instruction, a []Value) Value {
@@ -173,6 +180,12 @@ func init() {
 		s := strArg(a[0])
 		has := tStrSuffixOf(p, s)
 		trimmed := tStrSubstr(s, mkInt(0), tIntSub(tStrLen(s), tStrLen(p)))
+		if _, ok := fixedAtoms(s); ok && !has.IsConst() {
+			if ex.branch(has, site) {
+				return trimmed
+			}
+			return s
+		}
 		return tIte(has, trimmed, s)
 	})
 	reg("strings.TrimSpace", func(ex *Exec, fr *Frame, site ssa.Instruction, a []Value) Value {
@@ -224,6 +237,19 @@ func init() {
 				}
 			}
 			return mkRope(parts)
+		}
+		if old, ok := strArg(a[1]).StrVal(); ok && len(old) == 1 {
+			if as, ok := fixedAtoms(strArg(a[0])); ok && !strArg(a[0]).IsConst() {
+				var r *Term = mkStr("")
+				for _, at := range as {
+					if ex.branch(atomEq(at, old[0]), site) {
+						r = tStrConcat(r, strArg(a[2]))
+					} else {
+						r = tStrConcat(r, atomsToTerm([]strAtom{at}))
+					}
+				}
+				return r
+			}
 		}
 		return tStrReplaceAll(strArg(a[0]), strArg(a[1]), strArg(a[2]))
 	})
@@ -535,6 +561,23 @@ func (ex *Exec) strSplit(site ssa.Instruction, sv Value, sep *Term, n int) Value
 	}
 	if sp, ok := sep.StrVal(); ok && sp == "" {
 		panic(unsupported("Split with empty separator on symbolic string"))
+	}
+	if sp, ok := sep.StrVal(); ok && len(sp) == 1 {
+		if as, ok := fixedAtoms(s); ok {
+			// fixed-length character sequence: decide position by position (cheap byte comparisons)
+			var out []Value
+			var cur []strAtom
+			for _, a := range as {
+				if (n < 0 || len(out) < n-1) && ex.branch(atomEq(a, sp[0]), site) {
+					out = append(out, atomsToTerm(cur))
+					cur = nil
+					continue
+				}
+				cur = append(cur, a)
+			}
+			out = append(out, atomsToTerm(cur))
+			return sliceOf(out...)
+		}
 	}
 	var out []Value
 	for n < 0 || len(out) < n-1 {
